@@ -220,6 +220,11 @@ func verifRopeMove(dst, src int) {
 	verifRopes[dst] = append(verifRopes[dst], verifRopes[src]...)
 	verifRopes[src] = []byte{}
 }
+func verifRopeMoveCommitted(dst, src int) { verifRopeMove(dst, src) }
+func verifRopePrefix(a, b int, n int) bool {
+	ra, rb := verifRopes[a], verifRopes[b]
+	return len(rb) <= len(ra) && bytes.Equal(ra[:len(rb)], rb)
+}
 func verifRopeLen(id int) int { return len(verifRopes[id]) }
 func verifRopeMatch(id int, pos int, p []byte) bool {
 	r := verifRopes[id]
